@@ -475,7 +475,7 @@ func c19R3(c *Ctx) {
 	wantUse := map[string][]string{
 		"Network.CacheSize": {"github.com/hashicorp/golang-lru/v2.New"},
 		"Network.Timeout":   {"(time.Time).Add", "store:net.Dialer.Timeout"},
-		"Media.Hook":        {"builtin:len", "builtin:copy"},
+		"Media.Hook":        {"builtin:len", "builtin:copy", "builtin:append", "slices.Clone", "golang.org/x/exp/slices.Clone"},
 	}
 	for _, fn := range P.Funcs {
 		if P.PkgOf(fn) == "servitor/config" {
